@@ -373,10 +373,12 @@ where
 
     fn call(&mut self, parts: http::request::Parts) -> Self::Future {
         #[cfg_attr(not(feature = "tls"), allow(unused_variables))]
+        // URI schemes are case-insensitive (RFC 3986 section 3.1); `http::Uri` only normalises
+        // `http` and `https`, so `WSS://host/` arrives here spelled as written.
         let use_tls = parts
             .uri
             .scheme_str()
-            .is_some_and(|s| matches!(s, "https" | "wss"));
+            .is_some_and(|s| s.eq_ignore_ascii_case("https") || s.eq_ignore_ascii_case("wss"));
 
         match &mut self.braid {
             InnerBraid::Plain(inner) => {
